@@ -14,18 +14,19 @@ import (
 )
 
 type Action struct {
-	A         string   `json:"a"`
-	P         string   `json:"p"`
-	N         string   `json:"n"`
-	Tree      *Node    `json:"tree,omitempty"`
-	Local     string   `json:"local"`
-	Prefix    string   `json:"prefix"`
-	Preamble  []string `json:"preamble"`
-	Name      string   `json:"name"` // package name (New); default main
-	Ctor      string   `json:"ctor"` // NewFile | NewFilePath | NewFilePathName
-	Headers   []string `json:"headers"`
-	Comments  []string `json:"comments"`
-	Canonical string   `json:"canonical"`
+	A         string            `json:"a"`
+	P         string            `json:"p"`
+	N         string            `json:"n"`
+	Tree      *Node             `json:"tree,omitempty"`
+	Local     string            `json:"local"`
+	Prefix    string            `json:"prefix"`
+	Preamble  []string          `json:"preamble"`
+	Name      string            `json:"name"` // package name (New); default main
+	Ctor      string            `json:"ctor"` // NewFile | NewFilePath | NewFilePathName
+	Headers   []string          `json:"headers"`
+	Comments  []string          `json:"comments"`
+	Canonical string            `json:"canonical"`
+	M         map[string]string `json:"m,omitempty"` // ImportNames
 }
 
 var probeCache = map[string]string{}
@@ -67,6 +68,9 @@ func historyPaths(h []Action) []string {
 	for _, a := range h {
 		if a.P != "" {
 			set[a.P] = true
+		}
+		for k := range a.M {
+			set[k] = true
 		}
 		if a.Tree != nil {
 			Walk(a.Tree, func(n *Node) {
@@ -217,6 +221,19 @@ func ReplayHistory(tw *TraceWriter, id int, h []Action) {
 			fA.ImportAlias(a.P, a.N)
 			fB.ImportAlias(a.P, a.N)
 			tw.Emit(Rec{"ev": "ImportAlias", "p": a.P, "n": a.N})
+		case "ImportNames":
+			mA, mB := map[string]string{}, map[string]string{}
+			keys := []string{}
+			for k, v := range a.M {
+				mA[k], mB[k] = v, v
+				keys = append(keys, k)
+			}
+			sort.Strings(keys)
+			fA.ImportNames(mA)
+			fB.ImportNames(mB)
+			for _, k := range keys {
+				tw.Emit(Rec{"ev": "ImportName", "p": k, "n": a.M[k]})
+			}
 		case "Anon":
 			fA.Anon(a.P)
 			fB.Anon(a.P)
